@@ -111,6 +111,58 @@ func markOnce(c *Ctx, spec string) {
 			}
 		}
 	}
+	// or through a small helper handed the address of the field (set-if-nil): inside it, the store through that
+	// parameter is on the *p == nil edge and stores the address of a copy of the value parameter, which the call binds
+	// to the feed time
+	for _, b := range f.Blocks {
+		for _, in := range b.Instrs {
+			call, ok := in.(*ssa.Call)
+			if !ok || call.Call.IsInvoke() {
+				continue
+			}
+			h := call.Call.StaticCallee()
+			if h == nil || !p.isModuleFn(h) || len(h.Blocks) == 0 || len(h.Params) != len(call.Call.Args) {
+				continue
+			}
+			for ai, a := range call.Call.Args {
+				fa, isFA := a.(*ssa.FieldAddr)
+				if !isFA || fa.X != ssa.Value(f.Params[0]) || fieldName(fa.X.Type(), fa.Field) != "MarkedPast" {
+					continue
+				}
+				prm := h.Params[ai]
+				for _, hb := range h.Blocks {
+					for _, hin := range hb.Instrs {
+						st, isSt := hin.(*ssa.Store)
+						if !isSt || st.Addr != ssa.Value(prm) || isNilConst(st.Val) {
+							continue
+						}
+						n++
+						guarded := false
+						for _, ce := range dominatingConds(hb) {
+							if bo, ok := ce.Cond.(*ssa.BinOp); ok && isNilConst(bo.Y) {
+								if ld, isLd := bo.X.(*ssa.UnOp); isLd && ld.Op == token.MUL && ld.X == ssa.Value(prm) {
+									if (bo.Op == token.EQL && ce.Val) || (bo.Op == token.NEQ && !ce.Val) {
+										guarded = true
+									}
+								}
+							}
+						}
+						okVal := false
+						if cell, isAlloc := st.Val.(*ssa.Alloc); isAlloc && tprm != nil {
+							for _, sv := range cellStores(cell) {
+								if vp, isP := sv.(*ssa.Parameter); isP && vp.Parent() == h {
+									if k := paramIndex(vp); k >= 0 && k < len(call.Call.Args) && call.Call.Args[k] == ssa.Value(tprm) {
+										okVal = true
+									}
+								}
+							}
+						}
+						c.Check(guarded && okVal, "MARK", fname, "marked past only once, with the feed's time", p.ipos(call), "through "+shortName(h)+": *p = &v only on the *p == nil edge, p = &MarkedPast, v = the feed's time", "an entry that is already marked past can be re-stamped (the time of the first feed that no longer reported it is lost), or the stamp is not the feed's time")
+					}
+				}
+			}
+		}
+	}
 	if n == 0 {
 		c.Violated("MARK", fname, "marks past", p.pos(f.Pos()), "markPast never sets MarkedPast")
 	}
@@ -462,7 +514,21 @@ func runPartitionShape(c *Ctx, cp *ssa.Function, ps *partShape, b *binder) {
 				okPair = false
 			}
 			for _, s := range srcs {
-				if ia, ok := s.(*ssa.IndexAddr); !ok || ia.X != stopTimes {
+				// an element of the journal's list itself, or of a window into it (stopTimes[first:])
+				ia, ok := s.(*ssa.IndexAddr)
+				if !ok {
+					okPair = false
+					continue
+				}
+				base := ia.X
+				for k := 0; k < 4; k++ {
+					sl, isSl := base.(*ssa.Slice)
+					if !isSl {
+						break
+					}
+					base = sl.X
+				}
+				if base != stopTimes {
 					okPair = false
 				}
 			}
@@ -503,20 +569,54 @@ func runJournalTrips(c *Ctx) {
 	okUID := uidFn != nil && c.P.isModuleFn(uidFn)
 	whyUID := "Trip.TripUID is not produced by a helper shared with the lookup"
 	nSites := 0
+	bb := newBinder(c)
+	bb.showBodies = true
 	if okUID {
+		// every call of the UID helper, read together with what the helper computes from its arguments, is
+		// "%d%s" of (X.ID.StartDate.Add(X.ID.StartTime)).Unix() and X.ID.ID (possibly without its origin-time prefix) for
+		// one trip update X -- whether the helper is given the two values or the whole id
 		for _, fn := range append(c.regionOf(bj), c.regionOf(tu)...) {
+			if fn == uidFn {
+				continue
+			}
 			for _, blk := range fn.Blocks {
 				for _, in := range blk.Instrs {
 					call, ok := in.(*ssa.Call)
-					if !ok || staticCallee(call) != uidFn || len(call.Call.Args) != 2 {
+					if !ok || staticCallee(call) != uidFn {
 						continue
 					}
 					nSites++
-					a0, a1 := b.bind(call.Call.Args[0]), b.bind(call.Call.Args[1])
-					// a0 = time.Time.Add(X.ID.StartDate,X.ID.StartTime), a1 = X.ID.ID for the same X
-					x := strings.TrimSuffix(a1, ".ID.ID")
-					if x == a1 || a0 != "time.Time.Add("+x+".ID.StartDate,"+x+".ID.StartTime)" {
-						okUID, whyUID = false, fmt.Sprintf("%s builds a UID from (%s, %s), not from (X.ID.StartDate.Add(X.ID.StartTime), X.ID.ID) of one trip update", shortName(fn), clip(a0, 90), clip(a1, 60))
+					e := bb.bind(call)
+					k := strings.Index(e, "=>{")
+					if k < 0 {
+						okUID, whyUID = false, "the UID helper's result cannot be read in terms of its arguments: "+clip(e, 120)
+						continue
+					}
+					body := e[k:]
+					// the trip update X: whatever precedes ".ID.StartDate"
+					x := ""
+					if m := strings.Index(body, ".ID.StartDate"); m >= 0 {
+						st := m
+						depth := 0
+						for st > 0 {
+							ch := body[st-1]
+							if ch == ')' || ch == ']' {
+								depth++
+							} else if ch == '(' || ch == '[' {
+								if depth == 0 {
+									break
+								}
+								depth--
+							} else if (ch == ',' || ch == ' ' || ch == '{' || ch == '|') && depth == 0 {
+								break
+							}
+							st--
+						}
+						x = body[st:m]
+					}
+					want1 := "time.Time.Unix(time.Time.Add(" + x + ".ID.StartDate," + x + ".ID.StartTime))"
+					if x == "" || !strings.Contains(body, want1) || !strings.Contains(body, x+".ID.ID") || !strings.Contains(body, `fmt.Sprintf(const:"%d%s"`) {
+						okUID, whyUID = false, fmt.Sprintf("%s builds a UID that is not \"%%d%%s\" of X.ID.StartDate.Add(X.ID.StartTime).Unix() and X.ID.ID for one trip update X: %s", shortName(fn), clip(e, 200))
 					}
 				}
 			}
@@ -556,20 +656,6 @@ func runJournalTrips(c *Ctx) {
 		}
 	}
 	c.Check(okUID && nSites >= 2, "UID", "journal", "trip UID built identically where it is looked up and where it is recorded", "-", fmt.Sprintf("%d call sites of one helper, each on (X.ID.StartDate.Add(X.ID.StartTime), X.ID.ID)", nSites), whyUID)
-	if f := uidFn; f != nil && c.P.isModuleFn(f) {
-		ok := false
-		for _, blk := range f.Blocks {
-			for _, in := range blk.Instrs {
-				if call, isCall := in.(*ssa.Call); isCall && calleeName(call) == "fmt.Sprintf" {
-					if s, isS := constString(call.Call.Args[0]); isS && s == "%d%s" {
-						e := b.bind(call.Call.Args[1])
-						ok = strings.Contains(e, "time.Time.Unix(param:<time.Time>)") && strings.Contains(e, "param:<string>")
-					}
-				}
-			}
-		}
-		c.Check(ok, "UID", shortName(f), "UID = unix start + trip id without its origin-time prefix", p.pos(f.Pos()), "Sprintf(\"%d%s\", startTime.Unix(), tripID[6:] or tripID)", "the UID format changed")
-	}
 	// K2: every trip update of a feed reaches update-or-create, and is recorded as active
 	loops := naturalLoops(bj)
 	var tripLoop, vanishLoop, feedLoop *Loop
@@ -957,6 +1043,11 @@ func runTripUpdateShape(c *Ctx, tu *ssa.Function, b *binder) {
 			continue
 		}
 		e := b.bind(s.Val)
+		if f == "TripUID" {
+			sb := newBinder(c)
+			sb.showBodies = true
+			e = sb.bind(s.Val) // what the UID helper makes of its arguments
+		}
 		c.Check(want[f].ok(e), "ACCT", fname, "Trip."+f+" recorded by every applied update", p.ipos(s), f+" <- "+clip(e, 90), fmt.Sprintf("Trip.%s is taken from %s (expected to mention %v and none of %v)", f, clip(e, 120), want[f].all, want[f].none))
 	}
 }
